@@ -40,6 +40,13 @@ func vfH_C10_stepdown() {
 	wreq := w.RequestId
 	env.lock(1, w)
 	vfAssert(len(env.repliesFor(wreq)) == 0, "C10: harness: the second request is not queued")
+	// the databases a node has need not be numbered densely: optionally a second one with id 3 (1 and 2 never used)
+	var db3 *LockDB
+	if vfChoice("sparse", 2) == 1 {
+		db3 = NewLockDB(env.slock, 3)
+		env.slock.dbs[3] = db3
+		vfDropSpawned()
+	}
 	ev := vfChoice("event", 3)
 	ran := false
 	vfStepdownWindow = func() {
@@ -66,7 +73,21 @@ func vfH_C10_stepdown() {
 			vfAssert(len(hs) == 1 && hs[0].command.LockId == vfLockId(1), "C10: a node that is stepping down released or granted on its own")
 		}
 	}
-	env.slock.updateState(vfNonLeaderStatus("status"))
+	target := vfNonLeaderStatus("status")
+	env.slock.updateState(target)
 	vfAssert(ran, "C10: harness: the step-down never reached its wait")
+	for _, db := range env.slock.dbs {
+		if db != nil {
+			vfAssert(db.status == target, "C10: after a step-down a database of the node still has its old role")
+		}
+	}
+	if db3 != nil {
+		vfReach("sparse")
+		c := env.newCmd(protocol.COMMAND_LOCK, vfKey(7), vfLockId(7))
+		c.DbId, c.Expried, c.ExpriedFlag = 3, 100, 0x0200
+		n0 := len(env.replies)
+		_ = db3.Lock(env.protos[0], c, 0)
+		vfAssert(len(env.replies) == n0+1 && env.replies[n0].result == protocol.RESULT_STATE_ERROR, "C10: a database of a node that stepped down still answers client requests on its own")
+	}
 	vfReach("end")
 }
